@@ -429,7 +429,7 @@ POOLS = {
           -1e308, 0.30000000000000004, 0.3],
     'g': [float('nan'), float('inf'), float('-inf'), 0.0, -0.0, 1.0, 1.5, 2.0, f32(1.0000001), f32(1.0000002),
           f32(0.1), 16777216.0, -1.0, 3.0, 10.0, 9.0, f32(3.4e38), f32(1.00000012), f32(1.00000024), f32(1e30), f32(1.00000036), 2 - 2 ** -23, 2 - 2 ** -22, 2 - 3 * 2 ** -23],
-    's': ['', 'a', 'abc', 'abd', 'ab', 'B', '1', '1.0', '10', '9', 'true', 'false', 'NaN', 'INF', '-INF', ' 1 ', '-0',
+    's': ['', 'a', 'abc', 'abd', 'ab', 'B', '1', '1.0', '10', '9', 'true', 'false', 'NaN', 'INF', '-INF', ' 1 ', '-0', ' a ', '\tabc\n',
           '\U00010000', '￿', 'é', '1.5', '0', '-1', '+1', 'x', '1.00000001', '2', '3', 'ba', '12', 'abca', '4' + '0' * 38, '0.' + '0' * 40 + '1'],
     'a': ['', 'a', 'abc', 'abd', 'ab', 'B', '1', 'x', 'é', '10', '9'],
     'b': [True, False],
@@ -572,7 +572,7 @@ def corpus():
     c = []
     one = 1.0
     near = 1.00000001
-    for op in OPS:       # F07: double tolerance
+    for op in OPS:       # tolerance of xs:float (F07); doubles compare exactly
         c.append({'k': 'V', 'm': 'v2', 'op': op, 'l': [('f', one)], 'r': [('f', near)]})
         c.append({'k': 'G', 'm': 'v2', 'op': op, 'l': [('f', one)], 'r': [('f', near)]})
         c.append({'k': 'V', 'm': 'v31', 'op': op, 'l': [('g', 1.0)], 'r': [('g', f32(1.0000001))]})
@@ -614,6 +614,18 @@ def corpus():
         c.append({'k': 'G', 'm': 'v2', 'op': op, 'l': [('u', 'NaN')], 'r': [('d', '1.5')]})
         c.append({'k': 'G', 'm': 'v1', 'op': op, 'l': [('s', 'abc')], 'r': [('i', 1)]})
         c.append({'k': 'G', 'm': 'v1', 'op': op, 'l': [('b', True)], 'r': [('i', 2)]})
+        for dl in (9.9999e-8, 1.00000015e-7, 1.005e-7):     # Float.__eq__/__ne__ at the exact tolerance boundary
+            c.append({'k': 'V', 'm': 'v2', 'op': op, 'l': [('g', 3.0)], 'r': [('g', 3.0 * (1 + dl))]})
+            c.append({'k': 'G', 'm': 'v31', 'op': op, 'l': [('g', -7.25 * (1 + dl))], 'r': [('g', -7.25)]})
+        for m in ('v2', 'v2c', 'v31'):      # untypedAtomic cast on either side: QName, anyURI, integer
+            for u in (' a ', 'a', '1', ''):
+                c.append({'k': 'G', 'm': m, 'op': op, 'l': [('q', '', '', 'a')], 'r': [('u', u)]})
+                c.append({'k': 'G', 'm': m, 'op': op, 'l': [('u', u)], 'r': [('q', 'urn-x', 'p', 'a')]})
+                c.append({'k': 'G', 'm': m, 'op': op, 'l': [('a', 'a')], 'r': [('u', u)]})
+                c.append({'k': 'G', 'm': m, 'op': op, 'l': [('u', u)], 'r': [('a', 'a')]})
+            c.append({'k': 'G', 'm': m, 'op': op, 'l': [('i', 2 ** 53 + 1)], 'r': [('u', '9007199254740992')]})
+            c.append({'k': 'G', 'm': m, 'op': op, 'l': [('i', 10 ** 400)], 'r': [('u', '1e308'), ('u', 'INF')]})
+            c.append({'k': 'G', 'm': m, 'op': op, 'l': [('u', ' 1 ')], 'r': [('i', 1), ('q', '', '', 'a')]})
     for f in ('boolean', 'not', 'if'):
         for l in ([], [('i', 1), ('i', 2)], [('n', 'a'), ('i', 1)], [('i', 1), ('n', 'a')], [('f', float('nan'))],
                   [('d', '0.0')], [('q', '', '', 'a')], [('s', '')], [('u', 'false')], [('f', -0.0)]):
@@ -658,13 +670,15 @@ def gen_cases(run: Run):
     # (2b) pairs of doubles / floats at relative distances around the isclose tolerance (1e-7)
     for _ in range(run.scale(2500, 30000)):
         base = rng.choice([1.0, 3.0, 1e10, 1e-5, 123.456, -7.25, 2.0 ** 60, 1e-300, 1e300, 0.1, -1e-7])
-        delta = rng.choice([1, -1]) * rng.choice([0, 1e-9, 3e-8, 9e-8, 9.9e-8, 9.99e-8, 1e-7, 1.0000001e-7, 1.001e-7,
+        delta = rng.choice([1, -1]) * rng.choice([0, 1e-9, 3e-8, 9e-8, 9.9e-8, 9.99e-8, 1e-7, 1.0000001e-7, 1.00000015e-7, 1.001e-7,
                                                   1.01e-7, 1.1e-7, 2e-7, 5e-7, 9e-7, 1e-6, 1.1e-6, 1e-5, 1e-3])
         t = rng.choice(['f', 'f', 'g'])
         x, y = base, base * (1 + delta)
-        if t == 'g':
-            x, y = f32(rng.choice([1.0, 1.5, 1.9999, 3.0, -7.25, 1000.0])), None
+        if t == 'g' and (abs(base) > 1e30 or abs(base) < 1e-30 or rng.random() < 0.5):
+            x, y = f32(rng.choice([1.0, 1.185, 1.5, 1.9999, 3.0, -7.25, 1000.0])), None
             y = f32(x * (1 + delta * rng.choice([1, 2])))
+        # else: an xs:float holding a double that is not a binary32 value, as xs:float('1.00000001') does (Float
+        # stores the double nearest to the literal): the tolerance of Float.__eq__ is tied at its exact boundary
         a, b = (t, x), (t, y)
         if rng.random() < 0.5:
             a, b = b, a
@@ -1119,8 +1133,12 @@ def body(run: Run) -> int:
     run.assumptions += [
         'untypedAtomic / node string values are drawn from a declared lexical fragment (plain decimal literals, NaN, '
         'INF, -INF, true/false, words); outside it the driver answers UNSUPPORTED and the case is skipped (counted)',
-        'dates/times: years 1..9999, explicit timezone optional (missing = UTC: no implicit timezone is set in the context; C11 finding F11n), payload = (local seconds, offset); the local year is computed in the model by the calendar of the C11 specification and cross-checked against Python datetime on every run',
-        'durations have whole seconds; xs:float values are binary32-representable',
+        'dates/times: proleptic Gregorian years (BCE included, no year 0 for the XSD 1.0 classes), explicit timezone '
+        'optional; a missing timezone takes the implicit timezone of the dynamic context when the case sets one '
+        '(z=), else is read as UTC; payload = (local seconds, offset); the local year is computed in the model by '
+        'the calendar of the C11 specification and cross-checked against Python datetime on every run',
+        'durations have whole seconds; xs:float values are binary32-representable, except in the tolerance block where '
+        'a Float holds the double nearest to a decimal literal (as xs:float(\'1.00000001\') does)',
         'default collation = Unicode codepoint collation']
     run.stats.extra['tables'] = translate_tables(run)
     run.trusted_base.append('translator harness/c07.py::translate_tables (isinstance / class matrices of the live '
